@@ -33,7 +33,8 @@ def regenerate(repo, gen_dir):
     ch6 = gen_writer_formats(repo, gen_dir)
     ch7 = gen_iccma_tokens(repo, gen_dir)
     ch8 = gen_dispatch(repo, gen_dir)
-    return ch or ch2 or ch3 or ch4 or ch5 or ch6 or ch7 or ch8
+    ch9 = gen_wrapper(repo, gen_dir)
+    return ch or ch2 or ch3 or ch4 or ch5 or ch6 or ch7 or ch8 or ch9
 
 
 def parse_char(tok):
@@ -470,3 +471,27 @@ def gen_dispatch(repo, gen_dir):
                "def encoderTable : List (List String × String × String × String × String) := [%s]\n\nend Crusta.Gen\n") % (
         ", ".join('("%s", "%s", "%s")' % r for r in rows), ", ".join('(%s, "%s", "%s", "%s", "%s")' % r for r in enc_rows))
     return write_if_changed(os.path.join(gen_dir, "Dispatch.lean"), content)
+
+
+# ----------------------------------------------------------------------------- ICCMA'23 wrapper (main_iccma23.rs)
+
+def gen_wrapper(repo, gen_dir):
+    src = open(os.path.join(repo, "src/main_iccma23.rs")).read()
+    common = re.search(r"const COMMON_ARGS: \[&str; \d+\] = \[([^\]]*)\];", src)
+    special = re.search(r"else if real_args == \[([^\]]*)\] \{", src)
+    onces = re.findall(r'std::iter::once\("(\w+)"\.to_string\(\)\.into\(\)\)', src)
+    tail = re.search(r"\.chain\(\s*\[([^\]]*)\]\s*\.iter\(\)", src)
+    order = re.search(r'once\("solve"\.to_string\(\)\.into\(\)\)\s*\.chain\(real_args\.into_iter\(\)\)\s*\.chain\(COMMON_ARGS\.iter\(\)', src)
+    if not (common and special and tail and order) or onces != ["authors", "problems", "solve"] or "if real_args.is_empty()" not in src:
+        raise RuntimeError("translate_args_os_params no longer has the shape the model mirrors")
+
+    def strs(t):
+        return "[" + ", ".join('"%s"' % x for x in re.findall(r'"([^"]*)"', t)) + "]"
+    content = ("/-! Regenerated from /repo/src/main_iccma23.rs by tools/gen_from_source.py on every run. Do not edit. -/\n\n"
+               "namespace Crusta.Gen\n\n"
+               "def wrapperCommonArgs : List String := %s\n"
+               "def wrapperSpecialInvocation : List String := %s\n"
+               "def wrapperSubcommands : List String := %s\n"
+               "def wrapperSolveTail : List String := %s\n\nend Crusta.Gen\n") % (
+        strs(common.group(1)), strs(special.group(1)), "[" + ", ".join('"%s"' % x for x in onces) + "]", strs(tail.group(1)))
+    return write_if_changed(os.path.join(gen_dir, "Wrapper.lean"), content)
